@@ -131,9 +131,12 @@ def run_property(prop_id, cfg, tier, seed):
             reported.append((v, rp + ".json"))
     for kid, kf in sorted(known_hit.items()):
         print("KNOWN-FINDING: property=%s %s [%s]" % (prop_id, kf["what"], kid))
+    seen = set()
     for v, rp in reported:
+        if (v["harness"], v["check"]) in seen: continue
+        seen.add((v["harness"], v["check"]))
         print("VIOLATION property=%s replay=%s" % (prop_id, rp))
-        print("  harness=%s check=%s tags=%s inputs=%s sched=%s" % (v["harness"], v["check"], v["tags"], v["inputs"], v["sched"]))
+        print("  harness=%s check=%s tags=%s inputs=%s sched=%s" % (v["harness"], v["check"], v["tags"], [(i["name"], i["value"]) for i in (v["inputs"] or [])], v["sched"]))
     for r in replay_fail: inconclusive.append(r)
     # ---- K twins
     kres = []
